@@ -174,6 +174,7 @@ func requireRedisFaulted(r *ev.Run, n int, q func(quick, thorough int64) int64) 
 	r.RequireAtLeast("redis_faulted_consistent_view_checked_after_a_failed_operation", q(80, 1200))
 	r.RequireAtLeast("redis_faulted_after_reset_or_reopen_checked_after_a_failed_operation", q(20, 300))
 	r.RequireAtLeast("redis_faulted_earlier_value_decrypt_checked", q(15, 200))
+	r.RequireAtLeast("redis_faulted_third_state_checked", q(80, 1200))
 	r.RequireSetAtLeast("redis_faulted_configs", 5)
 	r.RequireSetAtLeast("redis_faulted_kinds", len(ksrig.ModelKinds))
 	r.RequireSetAtLeast("redis_faulted_failed_operation_kinds", 4)
